@@ -17,7 +17,8 @@ RULE_TEXT = ("C04-F format tables of every Response impl, read from path summari
              "query, in that order, `?`-propagated. C04-A (witness interfaces) each generated arm writes the handler's Ok "
              "value once and propagates the result. C04-W writer methods are called only from Response impls, their helper, "
              "execute and generated arms; write_char only gets ASCII literals; shipped Write impls append or fail."
-             " C04-K: the buffer discipline of process (rules K1-K7 of C07) - a unit is handed to run once.")
+             " C04-K: the buffer discipline of process (rules K1-K7 of C07) - a unit is handed to run once."
+             " C04-W (write_fmt): the formatted pieces go to the writer itself or through alloc's growable `format`; no intermediate container with a capacity of its own lies between the value and the writer.")
 
 W = "microscpi::response::Write::"
 WR = "microscpi::response::Response::write_response"
@@ -674,6 +675,7 @@ def rule_W(ck, lib, tag=""):
                 why = "success path does not append exactly once (directly or through one sibling method of the same writer)"
                 continue
             data = strip_sites(data)
+            why_fmt = None
             if name == "write_bytes":
                 okd = data == arg
             elif name == "write_str":
@@ -681,10 +683,21 @@ def rule_W(ck, lib, tag=""):
             elif name == "write_char":
                 okd = data == ("cast", arg, "u8")
             else:
-                okd = data == arg or (data[0] == "call" and data[1].endswith("::as_bytes"))
+                # write_fmt: the pieces go to the writer itself, or through a formatted string that grows as needed
+                # (alloc's `format`); an intermediate of a capacity of its own would lose an element the writer has room for
+                okd = data == arg
+                if not okd and data[0] == "call" and data[1].endswith("::as_bytes") and len(data[2]) == 1:
+                    src = data[2][0]
+                    while src[0] in ("ref", "deref") or (src[0] == "call" and src[1].split("::")[-1] in ("as_str", "deref", "borrow", "as_ref", "must_use") and len(src[2]) == 1):
+                        src = src[1] if src[0] in ("ref", "deref") else src[2][0]
+                    okd = src[0] == "call" and src[1].split("::")[0] in ("alloc", "std") and (any(u == arg for u in pathsum.subterms(src)) or any(u[0] == "local" and u[-1] == arg[1] for u in pathsum.subterms(src) if u))
+                    if not okd:
+                        why_fmt = "formats into `%s` and appends that: an intermediate with a capacity of its own between the value and the writer" % show_term(src)[:160]
             if not okd:
                 good = False
                 why = "appends %s instead of its argument" % show_term(data)
+                if why_fmt:
+                    why = why_fmt
             # fallible appends must have their failure mapped to Err on the other path
             if app is not None and (app[1].startswith("heapless::") or app[1].startswith("core::fmt::")):
                 t = ("call",) + app[1:]
